@@ -104,3 +104,96 @@ Proof.
 Qed.
 
 End Main.
+
+(* ------------------------------------------------------------------ the domain, as a decidable predicate *)
+Definition matched_names (h : list step) : list string := map st_name (filter st_matched h).
+
+Definition tgt_b (BN MN : list string) (t : string) : bool :=
+  is_none t || (negb (is_star t) && (mem BN t || negb (mem MN t))).
+Definition bi_step_b (s : step) : bool :=
+  st_builtin s && match st_kind s with KRegister => true | _ => false end
+  && is_none (st_before s) && is_none (st_after s).
+Definition user_step_b (BN MN : list string) (s : step) : bool :=
+  negb (st_builtin s) && tgt_b BN MN (st_before s) && tgt_b BN MN (st_after s).
+(* bs: the default registration; us: the user's calls.  Their Before/After requests name a matched
+   built-in of bs (live or removed by then) or a name under which no call of the history registers
+   anything; never "*". *)
+Definition plugin_hist (bs us : list step) : bool :=
+  forallb bi_step_b bs
+  && forallb (user_step_b (matched_names bs) (matched_names (bs ++ us))) us.
+
+Lemma tgt_b_tgt : forall BN MN t, tgt_b BN MN t = true -> tgt BN MN t.
+Proof.
+  intros BN MN t H. unfold tgt_b in H. apply orb_true_iff in H. destruct H as [H|H]; [left; exact H|].
+  right. apply andb_true_iff in H. destruct H as [Hs Hm]. apply negb_true_iff in Hs. split; [exact Hs|].
+  apply orb_true_iff in Hm. destruct Hm as [Hm|Hm]; [left; apply mem_true, Hm|].
+  right. apply negb_true_iff in Hm. apply mem_false, Hm.
+Qed.
+
+Lemma matched_names_in : forall h s, In s h -> st_matched s = true -> In (st_name s) (matched_names h).
+Proof. intros h s Hs Hm. unfold matched_names. apply in_map. apply filter_In. auto. Qed.
+
+Lemma used_register : forall r i s, st_kind s = KRegister -> st_matched s = true ->
+  In (st_name s) (r_used (ref_apply r i s)).
+Proof. intros r i s Hk Hm. unfold ref_apply. rewrite Hk, Hm. cbn. left. reflexivity. Qed.
+
+Lemma ok_hist_users : forall BN MN us r i,
+  Forall (user_step BN MN) us -> incl BN (r_used r) -> ok_hist BN MN r i us.
+Proof.
+  induction us as [|s us IH]; intros r i HF Hi; [constructor|].
+  inversion HF; subst. constructor.
+  - right. split; assumption.
+  - apply IH; [assumption|]. eapply incl_tran; [exact Hi|apply used_mono].
+Qed.
+
+Lemma ok_hist_build : forall BN MN bs us r i,
+  Forall (bi_step BN MN) bs -> Forall (user_step BN MN) us ->
+  incl BN (r_used r ++ matched_names bs) -> ok_hist BN MN r i (bs ++ us).
+Proof.
+  induction bs as [|b bs IH]; intros us r i HB HU Hi; cbn [app].
+  - apply ok_hist_users; [exact HU|]. unfold matched_names in Hi. cbn in Hi. now rewrite app_nil_r in Hi.
+  - inversion HB as [|x l Hb Hbs]; subst. constructor; [left; exact Hb|].
+    apply IH; [exact Hbs|exact HU|].
+    intros x Hx. apply Hi in Hx. apply in_app_iff in Hx. apply in_app_iff.
+    destruct Hx as [Hx|Hx]; [left; apply used_mono, Hx|].
+    unfold matched_names in Hx. cbn in Hx. destruct (st_matched b) eqn:Em.
+    + cbn in Hx. destruct Hx as [<-|Hx]; [|right; exact Hx].
+      left. destruct Hb as (_ & Hk & _). apply used_register; assumption.
+    + right. exact Hx.
+Qed.
+
+Lemma pinv_init : forall BN MN, pinv BN MN (mk_proc [] []) r0 [] [].
+Proof.
+  intros BN MN. constructor; cbn; try tauto; try reflexivity.
+  - exact rel_init.
+  - intros x [].
+Qed.
+
+Theorem plugin_correct : forall bs us,
+  plugin_hist bs us = true ->
+  spec_from r0 0%N None O (bs ++ us) (run (bs ++ us)) = true.
+Proof.
+  intros bs us H. unfold plugin_hist in H. apply andb_true_iff in H. destruct H as [HB HU].
+  set (BN := matched_names bs). set (MN := matched_names (bs ++ us)).
+  assert (FB : Forall (bi_step BN MN) bs).
+  { apply Forall_forall. intros s Hs. rewrite forallb_forall in HB. specialize (HB s Hs).
+    unfold bi_step_b in HB. rewrite !andb_true_iff in HB. destruct HB as (((Hb & Hk) & Hbf) & Haf).
+    unfold is_none in Hbf, Haf. apply String.eqb_eq in Hbf, Haf.
+    repeat split; auto.
+    - destruct (st_kind s); congruence.
+    - unfold BN. apply matched_names_in; assumption.
+    - unfold MN. apply matched_names_in; [apply in_app_iff; left|]; assumption. }
+  assert (FU : Forall (user_step BN MN) us).
+  { apply Forall_forall. intros s Hs. rewrite forallb_forall in HU. specialize (HU s Hs).
+    unfold user_step_b in HU. rewrite !andb_true_iff, negb_true_iff in HU. destruct HU as ((Hb & Tb) & Ta).
+    repeat split; auto using tgt_b_tgt.
+    intro Hm. unfold MN. apply matched_names_in; [apply in_app_iff; right|]; assumption. }
+  assert (OK : ok_hist BN MN r0 0%N (bs ++ us)).
+  { apply ok_hist_build; auto. intros x Hx. apply in_app_iff. right. exact Hx. }
+  pose proof (run_plugin BN MN (bs ++ us) (mk_proc [] []) r0 0%N None [] [] OK
+               (fun _ => conj (pinv_init BN MN) (fun g (E : None = Some (OOk g)) => match E with eq_refl => Logic.I end))) as RP.
+  fold (run (bs ++ us)) in RP.
+  unfold spec_from, spec_ok. rewrite judge_and. fold the_clause. rewrite RP, andb_true_r.
+  rewrite judge_crash, history_exactly_once, andb_true_r.
+  rewrite judge_crash in RP. apply andb_true_iff in RP. apply RP.
+Qed.
